@@ -145,6 +145,23 @@ let () = serve (fun fn req ->
       (purchase_decode_all (jschema (jfield req "schema")) (jnat (jfield req "depth")) (jn (jfield req "m"))
          (jbytes (jfield req "d")))
   | "v1_unsigned_payload" -> of_wres of_bytes (v1_unsigned_payload (jbytes (jfield req "d")))
+  | "embed" ->
+    let c = (match jstr (jfield req "carrier") with
+        | "claim_name" -> CarrierClaimName | "update_claim" -> CarrierUpdateClaim
+        | "support_data" -> CarrierSupportData | "return_data" -> CarrierReturnData
+        | k -> raise (Model_error ("bad carrier " ^ k))) in
+    of_option of_bytes (embed c (jbytes (jfield req "name")) (jbytes (jfield req "claim_id"))
+                          (jbytes (jfield req "pkh")) (jbytes (jfield req "payload")))
+  | "extract_payload" -> of_option of_bytes (extract_payload (jbytes (jfield req "src")))
+  | "media_step" ->
+    let jo k = (match jfield req k with JNull -> None | v -> Some (jn v)) in
+    let old = (match jfield req "old" with
+        | JNull -> None
+        | o -> (match jlist o with
+            | [k; w; h; d] -> Some (jn k, ((jn w, jn h), jn d))
+            | _ -> raise (Model_error "bad media state"))) in
+    of_option (fun (k, ((w, h), d)) -> JArr [of_n k; of_n w; of_n h; of_n d])
+      (media_step old (jo "kind") (jo "w") (jo "h") (jo "d"))
   | "hexlify" -> of_bytes (hexlify (jbytes (jfield req "b")))
   | "unhexlify" -> of_option of_bytes (unhexlify (jbytes (jfield req "s")))
   | "claim_id_of_hash" -> of_bytes (claim_id_of_hash (jbytes (jfield req "h")))
